@@ -238,6 +238,8 @@ fn t_c18(rng: &mut Rng, g: &mut GenCfg, w: &mut WorldCfg) {
     g.max_text_len = *rng.pick(&[3, 8, 12, 20, 40, 45, 60]);
     // automatic mode switches from text to checksum at 40 codepoints
     g.pref_lens = vec![39, 40, 41];
+    // texts that read like numbers: a format that types values by their looks must not lose the stored text
+    g.pct_digits = *rng.pick(&[0, 0, 60, 90]);
     g.n_res_ids = rng.range(1, 2);
     g.w[W_PROTECT] = *rng.pick(&[6, 10]);
     g.w[W_REMOVE_ANNOTATION] = *rng.pick(&[0, 2]);
